@@ -157,6 +157,18 @@ func runC03(c any, x *kit.Ctx) {
 		} else {
 			idx, err = carv2.GenerateIndex(src, opts...)
 		}
+	case "genfile":
+		// GenerateIndexFromFile(path)
+		pth := filepath.Join(x.Dir, "c03-gf.car")
+		if werr := os.WriteFile(pth, file, 0o644); werr != nil {
+			panic(werr)
+		}
+		cleanup = func() { os.Remove(pth) }
+		if cs.Kind == "insertion" {
+			err = errors.New("n/a")
+		} else {
+			idx, err = carv2.GenerateIndexFromFile(pth, opts...)
+		}
 	case "rog":
 		mkSrc(srcKind)
 		idx, err = carv2.ReadOrGenerateIndex(src.(io.ReadSeeker), opts...)
@@ -326,7 +338,7 @@ func genC03(tier string, emit func(any)) {
 			for _, kind := range []string{"mh", "sorted", "insertion"} {
 				apis := []string{"gen-bytes", "gen-file", "gen-stream", "gen-onebyte", "gen-half", "gen-pipe"}
 				if kind != "insertion" {
-					apis = append(apis, "rog-bytes", "rog-file", "rog-rs", "ro-at", "ro-bytes")
+					apis = append(apis, "genfile-path", "rog-bytes", "rog-file", "rog-rs", "ro-at", "ro-bytes")
 				} else {
 					apis = append(apis, "st-at", "st-bytes")
 				}
